@@ -15,6 +15,10 @@ CONSTANTS
   AdvArgs <- AdvQ
   SetArgs <- SetTwo
   Msgs <- NoMsgs
+  MCFreq = 1
+  Switch <- NoSwitch
+  Rewidth <- NoSwitch
+  Charsets <- NoSwitch
   Depth = 4
 VIEW HView
 PROPERTY PFrameShape
